@@ -84,6 +84,9 @@ fn refused() -> &'static Vec<SocketAddr> {
 
 pub fn run(sc: &Value) -> Vec<String> {
     let resolved: Vec<Value> = ga(sc, "resolved").to_vec();
+    if gb(sc, "ctoMax") && resolved.iter().any(|a| gs(a, "beh") == "blackhole") {
+        return vec![]; // "no connect timeout of its own" and an address that never answers: only the kernel would end it
+    }
     let stop = Arc::new(AtomicBool::new(false));
     let winner: Arc<Mutex<Option<(String, usize)>>> = Arc::new(Mutex::new(None));
     let mut addrs: Vec<SocketAddr> = Vec::new();
@@ -145,7 +148,8 @@ pub fn run(sc: &Value) -> Vec<String> {
     let res = catch_unwind(AssertUnwindSafe(|| {
         let mut b = attohttpc::get("http://multi.test:7777/x")
             .proxy_settings(attohttpc::ProxySettings::builder().build())
-            .connect_timeout(Duration::from_millis(guo(sc, "cto").unwrap_or(600) as u64))
+            // (ctoMax: the idiom for "no separate connect timeout")
+            .connect_timeout(if gb(sc, "ctoMax") { Duration::MAX } else { Duration::from_millis(guo(sc, "cto").unwrap_or(600) as u64) })
             .read_timeout(Duration::from_millis(2000));
         if gb(sc, "expired") {
             // an overall deadline that has passed before the first attempt starts
